@@ -146,4 +146,10 @@ inductive Reach : St → Prop where
   | init : Reach init
   | step {s s' b} : Reach s → Tr s b s' → Reach s'
 
+
+/-- an execution fragment: consecutive states, each a transition of the system -/
+inductive Path : St → List St → Prop where
+  | nil (s) : Path s []
+  | cons {s s' b rest} : Tr s b s' → Path s' rest → Path s (s' :: rest)
+
 end SockModel.Locks
